@@ -716,6 +716,9 @@ result_t DirectProtocolHandler::setState(BusState state, result_t result, bool f
   }
 
   if (state == bs_noSignal) {  // notify all requests
+    if (m_device->isArbitrating()) {
+      m_device->startArbitration(SYN);  // reset arbitration state: no request is left to arbitrate for
+    }
     m_response.clear();  // notify with empty response
     while ((m_currentRequest = m_nextRequests.pop()) != nullptr) {
       m_currentRequest->notify(RESULT_ERR_NO_SIGNAL, m_response);
